@@ -11,6 +11,7 @@ import (
 	"os"
 	"sort"
 	"strings"
+	"syscall"
 
 	"github.com/glebziz/fs_db"
 	fsmodel "github.com/glebziz/fs_db/internal/model"
@@ -28,6 +29,10 @@ type COp struct {
 	Lvl  int    `json:"lvl,omitempty"`
 	Key  int    `json:"key,omitempty"`
 	Len  int    `json:"len,omitempty"`
+	// create: sizes of the Write calls (the content is their concatenation); Enospc > 0 makes every
+	// content-file write fail with ENOSPC once that many bytes were written (storing fails)
+	Sizes  []int `json:"sizes,omitempty"`
+	Enospc int   `json:"enospc,omitempty"`
 }
 
 // Schedule is the generated schedule: forced preemptions and/or a random-walk tape.
@@ -115,6 +120,9 @@ type runner struct {
 	ctx     context.Context
 	trace   []string
 	traceOn bool
+
+	enospcAfter int
+	written     int
 }
 
 func (r *runner) tick() int { r.clock++; return r.clock }
@@ -163,6 +171,43 @@ func (r *runner) do(client, idx int, op COp, uniq int) {
 		b := model.Bytes(h.Val)
 		r.byHash[sha256.Sum256(b)] = h.Val
 		err = s.Set(r.ctx, h.Key, b)
+	case "create":
+		h.Key = r.key(op.Key)
+		total := 0
+		for _, n := range op.Sizes {
+			if n > 0 {
+				total += n
+			}
+		}
+		h.Val = model.Val{Len: total, Seed: uint32(uniq)}
+		b := model.Bytes(h.Val)
+		r.byHash[sha256.Sum256(b)] = h.Val
+		if op.Enospc > 0 {
+			r.enospcAfter = op.Enospc
+		}
+		var f fs_db.File
+		f, err = s.Create(r.ctx, h.Key)
+		if err == nil {
+			var werr error
+			for _, n := range op.Sizes {
+				if n < 0 {
+					n = 0
+				}
+				if _, werr = f.Write(b[:n]); werr != nil {
+					break
+				}
+				b = b[n:]
+			}
+			err = f.Close()
+			if werr != nil {
+				err = werr
+			}
+		}
+		r.enospcAfter = 0
+		h.K = "set" // for the oracle a created file is a write that takes effect between Create and Close
+		if err != nil {
+			h.K = "failed-create"
+		}
 	case "del":
 		h.Key = r.key(op.Key)
 		h.Val = model.Val{Del: true}
@@ -223,6 +268,12 @@ func Execute(c Case, trace bool) *Run {
 	verifhook.SetWrite(func(path string, size int) (int, error) {
 		if detsync.Active() {
 			detsync.Yield("file.write")
+		}
+		if r.enospcAfter > 0 {
+			if r.written+size >= r.enospcAfter {
+				return 0, syscall.ENOSPC
+			}
+			r.written += size
 		}
 		return size, nil
 	})
